@@ -561,7 +561,14 @@ def fix_starred_imports(source: str, preserve: Collection[str] = frozenset()) ->
 
     undefined_names = get_undefined_variables(source)
     passed_on_names = set(preserve) - get_defined_names(root) - get_import_bound_names(root)
-    for name in sorted(undefined_names | passed_on_names):
+    # from os import * binds open, and open is os.open from there on: the name of a builtin that
+    # the module reads and does not bind itself may be one that a star import provides
+    shadowed_builtins = (
+        (_get_referenced_names(root) & constants.BUILTIN_FUNCTIONS)
+        - get_defined_names(root)
+        - get_imported_names(root)
+    )
+    for name in sorted(undefined_names | passed_on_names | shadowed_builtins):
         if trace_result := trace_origin(name, source):
             if core.match_template(trace_result.ast, template):
                 starred_import_name_mapping[trace_result.ast].add(name)
